@@ -63,6 +63,10 @@ func c15id(f c15frame) int {
 	id := len(c15ids) + 1
 	c15ids[f] = id
 	c15names[id] = f
+	// the oracle value the model's is_log_frame stands for (global.go: stdLogCallerSkip)
+	if strings.HasPrefix(f.fn, "log.") {
+		c15logTagged[id] = true
+	}
 	return id
 }
 
@@ -434,6 +438,7 @@ type c15case struct {
 	n, w      int
 	goroutine bool
 	reflectID int // >= 0: call method c15methods[reflectID] through reflection instead of the site
+	near, far int // stack contexts (indices into c15ctxs, 0 = none): around the site / around the whole chain
 	class     string
 }
 
@@ -568,14 +573,16 @@ func c15exec(cs *c15case) (us []int, obs c15obs) {
 			}
 		}
 		c15last = calib
-	} else {
+	} else if cs.near == 0 && cs.far == 0 {
 		c15run(cs.n, cs.w, cs.goroutine, st.fn, h)
+	} else {
+		c15runCtx(cs.near, cs.far, cs.n, cs.w, cs.goroutine, st.fn, h)
 	}
 	if restore != nil {
 		restore()
 	}
 	us = c15frames(c15last)
-	all := logs.TakeAll()
+	all := c15userEntries(logs.TakeAll())
 	obs.entries = len(all)
 	if len(all) >= 1 {
 		e := all[0]
@@ -764,7 +771,7 @@ func c15emit(c *Ctx, cs *c15case) {
 				xs[i] = L(I(3))
 			}
 		}
-		in = L(I(1), L(xs...), I(a), I(cs.slvl), cs.core.sx(), LI(us))
+		in = L(I(1), L(xs...), I(a), I(cs.slvl), cs.core.sx(), c15usSX(us))
 	} else {
 		xs := make([]SX, len(cs.chain))
 		for i, cv := range cs.chain {
@@ -791,10 +798,17 @@ func c15emit(c *Ctx, cs *c15case) {
 			}
 			fe = L(I(2), I(ctor), I(b))
 		}
-		in = L(I(0), fe, L(xs...), I(cs.lvl), cs.core.sx(), LI(us))
+		in = L(I(0), fe, L(xs...), I(cs.lvl), cs.core.sx(), c15usSX(us))
 	}
 	if len(us) == 0 {
-		c.Viol("C15 harness: no user stack recorded for "+name, in)
+		c.Viol("C15 harness: no user stack recorded for "+name+" in context "+c15ctxLabel(cs.near, cs.far), in)
+		return
+	}
+	if c15logTagged[us[0]] {
+		panic("c15: a call site inside a log.-prefixed function generated")
+	}
+	if !cs.goroutine && !c15ctxsOnStack(cs.near, cs.far, us) {
+		c.Viol("C15 harness: the stack recorded for "+name+" does not show context "+c15ctxLabel(cs.near, cs.far), in)
 		return
 	}
 	if obs.entries > 1 {
@@ -814,6 +828,9 @@ func c15emit(c *Ctx, cs *c15case) {
 	}
 	meta := map[string]string{"nt": nt, "class": cs.class, "fe": name, "skip": strconv.Itoa(total),
 		"depth": dclass, "stack": strconv.Itoa(len(obs.stack)), "w": strconv.Itoa(cs.w)}
+	if cs.near != 0 || cs.far != 0 {
+		meta["ctx"] = c15ctxLabel(cs.near, cs.far)
+	}
 	// readable form of the frames involved, for replays
 	meta["site"] = c15name(us[0])
 	if total >= 0 && total < len(us) {
@@ -995,6 +1012,9 @@ func c15(c *Ctx) {
 			c15emit(c, cs)
 		}
 	}
+	// 9. stack contexts: every call site reached from inside String methods that log.Printf is
+	// formatting, writers of outer loggers, hooks of other zap loggers, deferred functions ... (c15_ctx.go)
+	c15contexts(c)
 	// 6. EntryCaller paths
 	for _, f := range []string{"", "a", "a.go", "/a.go", "pkg/a.go", "/pkg/a.go", "/x/pkg/a.go", "x/pkg/a.go", "/a/b/c/d.go",
 		"//", "/", "a/", "a//", "//a", "a//b", "/a//b.go", "C:/x/y/z.go", "/x/y/z.go/", "x/y:1/z.go"} {
@@ -1040,6 +1060,14 @@ func c15(c *Ctx) {
 		cs.goroutine = r.Chance(12)
 		if r.Chance(8) {
 			cs.core = c15en{kind: 0, t: r.Range(-1, 5)}
+		}
+		if r.Chance(30) {
+			cs.near = r.Intn(len(c15ctxs))
+			if r.Chance(50) {
+				cs.far = r.Intn(len(c15ctxs))
+			}
+		} else if r.Chance(15) {
+			cs.far = r.Intn(len(c15ctxs))
 		}
 		matched := r.Chance(70)
 		total := cs.w
